@@ -9,8 +9,9 @@ type vChunkReader struct {
 	pos   int
 	whole bool
 	reads int
-	cuts  int // >0: after this many arbitrary pieces the rest arrives as fast as the caller reads it
-	each  int // >0: every read returns at most this many bytes (a fixed piece size)
+	cuts  int   // >0: after this many arbitrary pieces the rest arrives as fast as the caller reads it
+	each  int   // >0: every read returns at most this many bytes (a fixed piece size)
+	sizes []int // non-empty: the k-th read returns at most sizes[k] bytes (one message per read), later reads whatever fits
 }
 
 func (r *vChunkReader) Read(p []byte) (int, error) {
@@ -22,7 +23,9 @@ func (r *vChunkReader) Read(p []byte) (int, error) {
 	}
 	max := vMin(len(p), len(r.data)-r.pos)
 	n := max
-	if r.each > 0 {
+	if r.reads < len(r.sizes) {
+		n = vMin(max, r.sizes[r.reads])
+	} else if r.each > 0 {
 		n = vMin(max, r.each)
 	} else if !r.whole && (r.cuts == 0 || r.reads < r.cuts) {
 		n = int(vU8("chunk"))
